@@ -59,6 +59,7 @@ def assign_ranks(st, rng):
 
 def materialise(st, rank, root):
     paths = {}
+    files = []
 
     def mk(i, parent):
         p = os.path.join(parent, NAMES[rank[i - 1] - 1])
@@ -68,10 +69,15 @@ def materialise(st, rank, root):
             for c in st["kids"][i - 1]:
                 mk(c, p)
         else:
-            with open(p, "wb") as f:
-                f.write(b"x" * ((i * 37) % 50))
-            mt = 0 if i % 4 == 0 else 1_600_000_000 + i * 1000 + 0.5     # some files carry the epoch itself as mtime
-            os.utime(p, (mt, mt))
+            twin = files[-1] if files and i % 3 == 0 else None
+            if twin:
+                os.link(twin, p)       # a second name of an existing file (hard link): still an entry of its own
+            else:
+                with open(p, "wb") as f:
+                    f.write(b"x" * ((i * 37) % 50))
+                mt = 0 if i % 4 == 0 else 1_600_000_000 + i * 1000 + 0.5     # some files carry the epoch itself as mtime
+                os.utime(p, (mt, mt))
+            files.append(p)
 
     for i in st["top"]:
         mk(i, root)
